@@ -22,7 +22,7 @@ hooks.  Session kinds are interleaved and at least MIN_PER_KIND sessions of ever
 anything; skipped counts go to the evidence (histogram + assumptions).
 
 Same-object HISTORIES (seed round 3): a session's op list may also hold, between two runs, every legal change the library
-offers or tolerates — `clear_history()`, in-place edits of the arrays / lists the accessors RETURNED earlier ("scribble"),
+offers or tolerates — `clear_history()`, in-place edits of the arrays / lists the accessors RETURNED earlier ("scribble"), reads from a user callback WHILE a run goes on ("inrun"),
 `reinitialize_parameters()`, rebinding a parameter, `load_state_dict`, `copy_` under no_grad, replacing a network through
 its setter, training a different state object with the same callbacks — and every op carries a READ MODE saying which
 accessors are looked at after it (all / arrays first / only the arrays / everything but the arrays / nothing), so that a lazily
@@ -85,7 +85,7 @@ def subdict(a, b):
 LAST_OUT = [""]
 
 # which accessors are read after an op of a session (the probe record is the oracle in every mode)
-READ_MODES = ("all", "arrays-first", "arrays", "scalars", "none")
+READ_MODES = ("all", "arrays-first", "arrays", "scalars", "none")     # + "inrun": read from a callback while the run goes on
 STATE_OPS = ("reinit", "rebind", "reload", "copy_", "swapnet", "swap")
 
 
@@ -375,6 +375,15 @@ def metric_session(ctx, spec):
                           on_train_end=lambda st: lam_seen.append(("te",)))][variant]
     cbs = cbs + [LambdaCallback(), lam]
     ctx.count("lambda_callback_variant:%d" % variant)
+    hist_base = [0]             # index of the first probe event after the latest clear_history
+    held_inrun = []
+    if spec.get("inrun"):       # a user callback after the evaluator reads its accessors while the run goes on
+        def inrun_read(st, epoch):
+            want = [(ev["epoch"], ev["values"]) for ev in probe.events[hist_base[0]:] if ev["epoch"] % p == 0]
+            check_metric_state(ctx, case, me, names, p, want, None, None, logf, "inrun", held_inrun)
+            del held_inrun[:]
+        cbs = cbs + [LambdaCallback(on_epoch_end=inrun_read)]
+        ctx.count("history:accessors read during the runs")
     exp_past, exp_log, mops = [], [], []
     fired_any = skipped_any = False
     reads = spec.get("reads") or ["all"] * len(spec["ops"])
@@ -384,6 +393,7 @@ def metric_session(ctx, spec):
         if op[0] == "clear":
             me.clear_history()
             exp_past = []
+            hist_base[0] = len(probe.events)
             mops.append([0])
         elif op[0] == "scribble":
             scribble(ctx, held)
@@ -457,7 +467,7 @@ def check_metric_state(ctx, case, me, names, p, exp_past, exp_log, mops, logf, m
                 else:
                     info(ctx, "get_value out-of-range index -> IndexError", r == [1, 0])
 
-    def chk_last_names_csv():
+    def chk_last_names():
         want_last = exp_past[-1][1] if n else {}
         ctx.require("evaluator.last == values of the most recent evaluation",
                     list(me.last) == list(want_last) and same_vals(list(me.last.values()), list(want_last.values())), case,
@@ -465,6 +475,8 @@ def check_metric_state(ctx, case, me, names, p, exp_past, exp_log, mops, logf, m
         nms = me.names
         ctx.require("evaluator.names == metric names", list(nms) == names, case)
         held.append(nms)
+
+    def chk_csv():
         if logf is None:
             return None
         with open(logf) as f:
@@ -478,15 +490,19 @@ def check_metric_state(ctx, case, me, names, p, exp_past, exp_log, mops, logf, m
 
     if mode == "arrays":
         return chk_arrays()
+    if mode == "inrun":          # from a user callback placed after the evaluator, at the end of an epoch of a run
+        chk_arrays(); chk_len_epochs(); chk_get_value(); chk_last_names()
+        return
     if mode == "scalars":
-        chk_len_epochs(); chk_get_value(); chk_last_names_csv()
+        chk_len_epochs(); chk_get_value(); chk_last_names(); chk_csv()
         return
     if mode == "arrays-first":
         chk_arrays(); chk_len_epochs()
     else:
         chk_len_epochs(); chk_arrays()
     chk_get_value()
-    body = chk_last_names_csv()
+    chk_last_names()
+    body = chk_csv()
     # ---- correspondence with the model
     allq = [(nm, i) for nm in names + ["zz"] for i in list(range(-n - 2, n + 2)) + [None]]
     vmask = [nm != "zz" and ((i is None and n > 0) or (i is not None and -n <= i < n)) for nm, i in allq]
@@ -541,6 +557,17 @@ def obs_session(ctx, spec):
     ctx.count("evaluator_options:verbose=%s,log=%s" % (verbose, logf is not None))
     probe = C["Probe"](C["obs_wouldbe"](observables, kw))
     cbs = [clock, probe, oe]        # the probe must sit right before the evaluator (same RNG state)
+    hist_base = [0]
+    held_inrun = []
+    if spec.get("inrun"):
+        from qucumber.callbacks import LambdaCallback
+
+        def inrun_read(st, epoch):
+            want = [(ev["epoch"], ev["values"]) for ev in probe.events[hist_base[0]:] if ev["epoch"] % p == 0]
+            check_obs_state(ctx, case, oe, names, p, want, None, None, logf, "inrun", held_inrun)
+            del held_inrun[:]
+        cbs = cbs + [LambdaCallback(on_epoch_end=inrun_read)]
+        ctx.count("history:accessors read during the runs")
     exp_past, exp_log, mops = [], [], []
     fired_any = skipped_any = False
     reads = spec.get("reads") or ["all"] * len(spec["ops"])
@@ -550,6 +577,7 @@ def obs_session(ctx, spec):
         if op[0] == "clear":
             oe.clear_history()
             exp_past = []
+            hist_base[0] = len(probe.events)
             mops.append([0])
         elif op[0] == "scribble":
             scribble(ctx, held)
@@ -623,7 +651,7 @@ def check_obs_state(ctx, case, oe, names, p, exp_past, exp_log, mops, logf, mode
                 else:
                     info(ctx, "get_value out-of-range index -> IndexError", r == [1, 0])
 
-    def chk_last_names_csv():
+    def chk_last_names():
         want_last = exp_past[-1][1] if n else {}
         ctx.require("evaluator.last == values of the most recent evaluation",
                     list(oe.last) == list(want_last) and all(same_vals(stats_list(oe.last[k]), stats_list(want_last[k])) for k in want_last),
@@ -631,6 +659,8 @@ def check_obs_state(ctx, case, oe, names, p, exp_past, exp_log, mops, logf, mode
         nms = oe.names
         ctx.require("evaluator.names == observable names", list(nms) == names, case)
         held.append(nms)
+
+    def chk_csv():
         if logf is None:
             return None
         with open(logf) as f:
@@ -644,15 +674,19 @@ def check_obs_state(ctx, case, oe, names, p, exp_past, exp_log, mops, logf, mode
 
     if mode == "arrays":
         return chk_arrays()
+    if mode == "inrun":          # from a user callback placed after the evaluator, at the end of an epoch of a run
+        chk_arrays(); chk_len_epochs(); chk_get_value(); chk_last_names()
+        return
     if mode == "scalars":
-        chk_len_epochs(); chk_get_value(); chk_last_names_csv()
+        chk_len_epochs(); chk_get_value(); chk_last_names(); chk_csv()
         return
     if mode == "arrays-first":
         chk_arrays(); chk_len_epochs()
     else:
         chk_len_epochs(); chk_arrays()
     chk_get_value()
-    body = chk_last_names_csv()
+    chk_last_names()
+    body = chk_csv()
     # ---- correspondence with the model
     idxs = list(range(-n - 2, n + 2)) + [None]
     allq = [(nm, i) for nm in names + ["zz"] for i in idxs]
@@ -1032,7 +1066,8 @@ def random_history(rng, kinds, obs=False):
             stop = (int(rng.integers(nxt[0], nxt[1])), "epoch" if rng.random() < 0.5 else "batch")
         ops.append(("fit", nxt[0], nxt[1], stop)); reads.append(pick(rng, ["all", "arrays", "arrays-first", "scalars", "none"], [4, 2, 2, 1, 1]))
         last = nxt
-    return {"state": pick(rng, kinds), "period": p, "ops": ops, "reads": reads, "tseed": int(rng.integers(1 << 30))}
+    return {"state": pick(rng, kinds), "period": p, "ops": ops, "reads": reads, "tseed": int(rng.integers(1 << 30)),
+            "inrun": bool(rng.random() < 0.3)}
 
 
 def history_specs(rng, full):
@@ -1093,6 +1128,12 @@ FIXED_HISTORIES = [
                 "reads": ["arrays", "none", "none", "arrays", "all", "none", "arrays-first"],
                 "tseed": 37, "script": [0.5, -1.25, 2.0, 0.75, -0.5, 1.0, 3.5], "probe_before": True, "verbose": False, "log": True, "form": 0,
                 "ptype": "np.int64"}),
+    # the accessors read by a user callback at every epoch end while the runs go on (records are appended under a memo)
+    ("metric", {"state": "positive", "period": 2, "ops": [FIT(1, 5), FIT(6, 9), ("clear",), FIT(3, 6), ("reinit",), FIT(1, 4)],
+                "reads": ["none", "all", "none", "none", "none", "all"], "inrun": True,
+                "tseed": 38, "script": [0.5, -1.25, 2.0, 0.75, -0.5, 1.0, 3.5], "probe_before": True, "verbose": False, "log": True, "form": 0}),
+    ("obs", {"state": "complex", "period": 1, "ops": [FIT(1, 3), FIT(4, 5), ("clear",), FIT(2, 4)], "reads": ["none", "all", "none", "all"],
+             "inrun": True, "tseed": 44, "script": [[0.1, 0.5], [0.3, 1.5], [-0.4, 0.7], [1.1, 0.2], [0.6, 1.9]], "verbose": False, "log": True, "form": 0}),
     ("obs", {"state": "positive", "period": 2, "ops": [FIT(1, 6), ("clear",), FIT(7, 12)], "reads": ["all", "none", "all"],
              "tseed": 41, "script": [[0.1, 0.5], [0.3, 1.5], [-0.4, 0.7], [1.1, 0.2], [0.6, 1.9]], "verbose": False, "log": True, "form": 0}),
     ("obs", {"state": "complex", "period": 1, "ops": [FIT(1, 3), ("clear",), FIT(1, 3), ("scribble",), ("clear",), FIT(1, 5)],
